@@ -70,7 +70,7 @@ theorem featCanon_mem {fd : Dict} {known : List Str} : ∀ e ∈ featCanon fd kn
 
 theorem featCanon_eq {fd : Dict} {known : List Str} (h : rolesFeatValid known fd = true) : featCanon fd known = fd := by
   simp only [rolesFeatValid, Bool.and_eq_true, beq_iff_eq] at h
-  obtain ⟨⟨⟨_, hk⟩, hnd⟩, _⟩ := h
+  obtain ⟨⟨_, hk⟩, hnd⟩ := h
   exact eq_of_keys_and_lookup fd hnd _ hk featCanon_mem
 
 theorem featBad_false_of_all_bool {fd : Dict} (h : fd.all (fun kv => kv.2.isBool) = true) (f : Str) : featBad fd f = false := by
@@ -91,14 +91,14 @@ theorem featBad_false_of_all_bool {fd : Dict} (h : fd.all (fun kv => kv.2.isBool
 theorem featuresCheck_valid {site : Str} {known : List Str} {fd : Dict} (h : rolesFeatValid known fd = true) :
     featuresCheck site known fd = .ok fd := by
   have hc := featCanon_eq h
-  simp only [rolesFeatValid, Bool.and_eq_true, Bool.not_eq_true'] at h
-  obtain ⟨⟨⟨hb, _⟩, _⟩, hself⟩ := h
+  simp only [rolesFeatValid, Bool.and_eq_true] at h
+  obtain ⟨⟨hb, _⟩, _⟩ := h
   unfold featuresCheck
   have hbad : known.any (featBad fd) = false := by
     rw [List.any_eq_false]
     intro f _
     simp [featBad_false_of_all_bool hb f]
-  simp only [hself, Bool.false_eq_true, if_false, hbad, hc]
+  simp only [Bool.false_eq_true, if_false, hbad, hc]
 
 theorem roleEnc_nil : roleEnc (.dict []) = .dict [] := rfl
 theorem roleEnc_cons (e : Str × WVal) (fd : Dict) : roleEnc (.dict (e :: fd)) = .dict [(cs!"features", .dict (e :: fd))] := rfl
